@@ -105,6 +105,8 @@ class FunctionEngine(CallsMixin, Engine):
             v = self.eval(a[0], s2)
             if v.ty.is_container and v.loc is not None:
                 v = V(v.ty, self.load(v, s2))
+            elif v.ty.kind == 'Optional' and v.loc is not None:
+                v = V(v.ty, self.opt_term(v, s2))   # snapshot: must not be re-read from the current state
             return v
         if f == 'implies':
             p = self.truth(self.eval(a[0], st), st)
@@ -386,7 +388,9 @@ class FunctionEngine(CallsMixin, Engine):
                 val = self.materialize_empty(val, want, st)
                 if val.ty != want:
                     cv = self.coerce(val, want, st)
-                    val = self.new_cell(st, want, self.as_term(cv, st))
+                    # a coercion that keeps the identity of the container (e.g. Optional[T] -> T) keeps its location:
+                    # the local is an alias, not a copy
+                    val = cv if cv.loc is not None else self.new_cell(st, want, self.as_term(cv, st))
                 elif val.loc is None:
                     val = self.new_cell(st, want, val.t)
             else:
@@ -407,6 +411,11 @@ class FunctionEngine(CallsMixin, Engine):
         return Engine.store(self, v, term, st)
 
     def s_Assign(self, s, st):
+        dead = self.contract.get('dead_locals', ())
+        if dead and all(isinstance(t, ast.Name) and t.id in dead for t in s.targets):
+            # locals that are only read by an abstracted nested function: the assignment is dropped (its right-hand
+            # side is assumed side-effect free); any later read of the name is an error (unknown name)
+            return [(st, NORMAL)]
         val = self.eval(s.value, st)
         for tgt in s.targets:
             self.assign_to(tgt, val, st)
@@ -452,6 +461,8 @@ class FunctionEngine(CallsMixin, Engine):
         tgt = s.target
         cur = self.eval(tgt, st) if not isinstance(tgt, ast.Name) else st.env.get(tgt.id) or self.eval(tgt, st)
         val = self.eval(s.value, st)
+        if cur.ty.kind == 'Optional' and cur.ty.args[0].is_container:
+            cur = self.coerce(cur, cur.ty.args[0], st, 'augmented-assignment target')
         k = cur.ty.kind
         if k == 'List' and isinstance(s.op, ast.Add):
             # in-place extend
@@ -662,6 +673,14 @@ class FunctionEngine(CallsMixin, Engine):
                 y = self.Yv(st)
                 self.store(y, fresh(y.ty, 'lh_Y'), st)
                 continue
+            if n in st.env and st.env[n].ty.kind == 'Optional' and st.env[n].ty.args[0].is_container:
+                v = st.env[n]
+                if isinstance(v.loc, FieldLoc):
+                    # alias of an Optional[container] field: the field entry may change in the loop
+                    arr = self.get_field_array(st, v.loc.fname, v.ty)
+                    st.fields[v.loc.fname] = z3.Store(arr, v.loc.ref, fresh(v.ty, f'lh_{n}'))
+                    continue
+                raise Unsupported(f'loop mutates optional container {n} without a known location')
             if n in st.env and st.env[n].ty.is_container:
                 v = st.env[n]
                 if v.loc is None:
@@ -702,6 +721,8 @@ class FunctionEngine(CallsMixin, Engine):
             return
         env = dict(st.env)
         env.update(env_extra)
+        if st.Y is not None:
+            env['Y'] = st.Y
         for lab, inv in self.norm_clauses(spec.get('invariant', ())):
             g = self.eval_spec(inv, env, st, pre=pre)
             self.emit(st, kind, f'{sig}:{lab}', g, tag='carrier')
@@ -711,6 +732,8 @@ class FunctionEngine(CallsMixin, Engine):
             return
         env = dict(st.env)
         env.update(env_extra)
+        if st.Y is not None:
+            env['Y'] = st.Y
         for lab, inv in self.norm_clauses(spec.get('invariant', ())):
             st.assume(self.eval_spec(inv, env, st, pre=pre))
 
